@@ -43,7 +43,9 @@ def judge(y, ref, exact, check_dtype, out=None):
         ("x.persist", lambda: (fresh().persist(scheduler="sync"), "coll")),
         ("x.optimize", lambda: (fresh().optimize(), "coll-anyname")),
         ("to_delayed", lambda: (_to_delayed_value(fresh()), None)),
-        ("np.asarray", lambda: (np.asarray(fresh()), None)),
+        # (np.asarray of a masked result returns the data without the mask, in
+        # NumPy too: not an entry point for masked programs)
+        ("np.asarray", lambda: (np.asarray(fresh()) if not isinstance(ref, np.ma.MaskedArray) else fresh().compute(scheduler="sync"), None)),
         ("dask.persist", lambda: (dask.persist(fresh(), scheduler="sync")[0], "coll")),
         ("dask.persist-with-sibling", lambda: (dask.persist(fresh(), sib, scheduler="sync")[0], "coll")),
         ("dask.optimize", lambda: (dask.optimize(fresh())[0], "coll")),
